@@ -1,1 +1,103 @@
-import BigtreeModel.Basic
+import BigtreeModel.Store
+import BigtreeProofs.Lemmas.StoreStep
+/-!
+# C02 — a rejected or failing structural assignment changes nothing (BaseNode / Node part)
+
+The setters of `BigtreeModel/Store.lean` execute the snapshot, the hooks, the body of the `try`
+and the explicit roll-back code of the `except` branch.  The theorems say that whenever the outcome
+is `rej` — guard (type, loop, repeated child), `Node`'s duplicate-name check, user hook raising
+before (`Fault.pre`) or after (`Fault.post`) the assignment — the resulting store EQUALS the store
+before the call (every parent, every child list in order, names, separators).
+-/
+
+namespace C02
+open Store
+
+def demoCfg : Cfg := { assertions := true, node := true }
+/-- `p = 0` has children `x y z = 1 2 3`, `q = 4`, names a b c d e -/
+def demo : Store :=
+  run demoCfg (init 5 (fun i => [Char.ofNat (97 + i)]) ['/']) [.setChildren 0 [1, 2, 3] .none]
+
+theorem demo_wf : WF demo := Store.wf_run (Store.wf_init _ _ _) demoCfg rfl _
+
+/-- parent setter: whatever made the call fail, nothing changed -/
+theorem setParent_rej_id (c : Cfg) (s : Store) (hw : WF s) (v : Nat) (np : Option Nat) (f : Fault)
+    (h : (setParent c s v np f).2 = .rej) : (setParent c s v np f).1 = s :=
+  Store.setParent_rej_id hw c v np f h
+
+-- the hypotheses are met for every rejection cause on a concrete store
+example : (setParent demoCfg demo 0 (some 2) .none).2 = .rej := by decide      -- loop
+example : (setParent demoCfg demo 2 (some 7) .none).2 = .rej := by decide      -- not a node
+example : (setParent demoCfg demo 2 (some 4) .pre).2 = .rej := by decide       -- hook before
+example : (setParent demoCfg demo 2 (some 4) .post).2 = .rej := by decide      -- hook after
+example : (setParent demoCfg demo 2 (some 4) .none).2 = .ok := by decide
+
+/-- children setter (checks on): whatever made the call fail, nothing changed -/
+theorem setChildren_rej_id (c : Cfg) (hc : c.assertions = true) (s : Store) (hw : WF s) (v : Nat)
+    (cs : List Nat) (f : Fault) (h : (setChildren c s v cs f).2 = .rej) : (setChildren c s v cs f).1 = s :=
+  Store.setChildren_rej_id hw c v cs f (by simp [hc]) h
+
+/-- the same with the checks off, for arguments the checks accept -/
+theorem setChildren_rej_id_unchecked (c : Cfg) (s : Store) (hw : WF s) (v : Nat) (cs : List Nat) (f : Fault)
+    (hok : checkChildrenLoop s v cs [] = true)
+    (h : (setChildren c s v cs f).2 = .rej) : (setChildren c s v cs f).1 = s :=
+  Store.setChildren_rej_id hw c v cs f (fun _ => hok) h
+
+example : (setChildren demoCfg demo 4 [2, 1] .post).2 = .rej := by decide     -- D1's failing call
+example : (setChildren demoCfg demo 4 [2, 2] .none).2 = .rej := by decide     -- repeated child
+example : (setChildren demoCfg demo 1 [0] .none).2 = .rej := by decide        -- ancestor
+
+/-- every call of the API except the documented loop `extend` is atomic -/
+theorem step_rej_id (c : Cfg) (hc : c.assertions = true) (s : Store) (hw : WF s) (op : Op)
+    (hne : ∀ p cs f k, op ≠ .extend p cs f k) (h : (step c s op).2 = .rej) : (step c s op).1 = s := by
+  cases op with
+  | setParent v np f =>
+    simp only [step] at h ⊢; split
+    · rename_i hv; rw [if_pos hv] at h; exact Store.setParent_rej_id hw c v np f h
+    · rfl
+  | setChildren v cs f =>
+    simp only [step] at h ⊢; split
+    · rename_i hv; rw [if_pos hv] at h; exact Store.setChildren_rej_id hw c v cs f (by simp [hc]) h
+    · rfl
+  | setChildrenNonList v f => rfl
+  | delChildren v => simp only [step] at h ⊢; split <;> simp_all
+  | append p ch f =>
+    simp only [step, assignParentOf] at h ⊢; split
+    · rename_i hv; rw [if_pos hv] at h; split
+      · rename_i hc'; rw [if_pos hc'] at h; exact Store.setParent_rej_id hw c ch (some p) f h
+      · rfl
+    · rfl
+  | extend p cs f k => exact absurd rfl (hne p cs f k)
+  | rshift p ch f =>
+    simp only [step, assignParentOf] at h ⊢; split
+    · rename_i hv; rw [if_pos hv] at h; split
+      · rename_i hc'; rw [if_pos hc'] at h; exact Store.setParent_rej_id hw c ch (some p) f h
+      · rfl
+    · rfl
+  | lshift ch p f =>
+    simp only [step] at h ⊢; split
+    · rename_i hv; rw [if_pos hv] at h; exact Store.setParent_rej_id hw c ch p f h
+    · rfl
+  | delItem p nm f =>
+    simp only [step, delItem] at h ⊢; split
+    · rename_i hv; rw [if_pos hv] at h
+      cases hf : findChildByName s p nm with
+      | none => rfl
+      | some r =>
+        cases r with
+        | none => rfl
+        | some ch => rw [hf] at h; exact Store.setParent_rej_id hw c ch none f h
+    · rfl
+  | sort v ranks rev => simp only [step] at h ⊢; split <;> simp_all
+  | setSep v x => simp only [step] at h ⊢; split <;> simp_all
+
+/-- The roll-back as it was BEFORE the D1 repair (dict insertion order instead of ascending
+original index) is not the identity: `p.children = [x,y,z]`, failing `q.children = [y,x]`
+leaves `p.children = [x,z,y]`. -/
+theorem prefix_rollback_not_identity :
+    (setChildrenPreFix demoCfg demo 4 [2, 1] .post).2 = .rej ∧
+    (setChildrenPreFix demoCfg demo 4 [2, 1] .post).1.children 0 = [1, 3, 2] ∧
+    demo.children 0 = [1, 2, 3] ∧
+    (setChildren demoCfg demo 4 [2, 1] .post).1.children 0 = [1, 2, 3] := by decide
+
+end C02
